@@ -12,7 +12,7 @@ from typing import Dict, List, Optional, Tuple
 
 import sympy as sp
 
-from ..core import canon_in, AnalysisError, Func, Ob, dotted, kw, need, ob, short, src, walk_no_nested
+from ..core import bind_args, canon_in, AnalysisError, Func, Ob, dotted, kw, need, ob, short, src, walk_no_nested
 from ..runner import Ctx, rule
 from ..symalg import Kernel, Sc, Vec, equal, vadd, vscale
 
@@ -1172,3 +1172,97 @@ def rule_kform(ctx: Ctx) -> List[Ob]:
         obs.append(ob("KFORM", f"block {k_} of K is {names[k_]}", f, at, ok,
                       f"K{k_} = {got}" + ("" if ok else f"; reference {r_}"), construct=f"K block {k_}"))
     return obs
+
+
+@rule("KSOLVE", min_instances=2)
+def rule_ksolve(ctx: Ctx) -> List[Ob]:
+    """the reduced system K v = W'Z rHat is solved through the factor LK of K = LK E LK' (E = diag(-I, I)):
+    v <- LK^-1 v (lower triangular); v[:m] <- -v[:m] (E^-1 = E); v <- LK^-T v (upper triangular), in this order, with
+    m half the size of K; and the right-hand side and the factor are those of this call"""
+    f = ctx.repo.func("subspacemin.subspace_minimization")
+    obs: List[Ob] = []
+    # the branch that uses the factor
+    use = [s for s in walk_no_nested(f.node) if isinstance(s, ast.If) and "LK" in src(s.test) and "None" in src(s.test)]
+    need(len(use) >= 1, "KSOLVE: the branch on the factor LK was not found")
+    br = use[0]
+    t = br.test
+    has = isinstance(t, ast.Compare) and isinstance(t.ops[0], ast.IsNot)
+    body = br.body if has else br.orelse
+    seq = []
+    alias: Dict[str, str] = {}
+    for s in body:
+        if isinstance(s, ast.Expr):
+            continue
+        if isinstance(s, ast.Assign) and len(s.targets) == 1 and isinstance(s.targets[0], ast.Name) and isinstance(s.value, ast.Name):
+            # a renamed right-hand side (an inlined helper's parameter)
+            alias[s.targets[0].id] = alias.get(s.value.id, s.value.id)
+            continue
+        if isinstance(s, ast.Assign) and len(s.targets) == 1 and isinstance(s.value, ast.Call) and (dotted(s.value.func) or "").endswith("solve_triangular"):
+            c = s.value
+            a0, a1 = (src(c.args[0]) if c.args else "?"), (src(c.args[1]) if len(c.args) > 1 else "?")
+            lo, tr = kw(c, "lower"), kw(c, "trans")
+            lower = lo is not None and src(lo) == "True"
+            trans = tr is not None and src(tr) not in ("'N'", "0", '"N"')
+            if a0 == "LK" and lower and not trans:
+                seq.append(("Linv", src(s.targets[0]), a1, s))
+            elif (a0 == "LK.T" and not lower and not trans) or (a0 == "LK" and lower and trans):
+                seq.append(("LTinv", src(s.targets[0]), a1, s))
+            else:
+                seq.append(("?" + short(c, 50), src(s.targets[0]), a1, s))
+        elif isinstance(s, ast.AugAssign) and isinstance(s.op, ast.Mult) and src(s.value) in ("-1", "-1.0") and isinstance(s.target, ast.Subscript):
+            sl = s.target.slice
+            half = isinstance(sl, ast.Slice) and sl.lower is None and sl.step is None and sl.upper is not None and \
+                src(sl.upper).replace(" ", "") in ("int(LK.shape[0]/2)", "LK.shape[0]//2", "int(LK.shape[0]//2)", "m", "len(LK)//2")
+            seq.append(("E" if half else "E?" + src(sl), src(s.target.value), src(s.target.value), s))
+        elif isinstance(s, ast.Assign) and isinstance(s.targets[0], ast.Subscript) and isinstance(s.value, ast.UnaryOp) and isinstance(s.value.op, ast.USub):
+            sl = s.targets[0].slice
+            half = isinstance(sl, ast.Slice) and sl.lower is None and sl.step is None and sl.upper is not None and \
+                src(sl.upper).replace(" ", "") in ("int(LK.shape[0]/2)", "LK.shape[0]//2", "int(LK.shape[0]//2)", "m", "len(LK)//2") and \
+                src(s.value.operand) == src(s.targets[0])
+            seq.append(("E" if half else "E?" + src(sl), src(s.targets[0].value), src(s.targets[0].value), s))
+        else:
+            seq.append(("other:" + short(s, 40), None, None, s))
+    kinds = [k for k, _, _, _ in seq]
+    chain = True
+    cur = None
+    for k, out, inp, _ in seq:
+        if inp is None:
+            chain = False
+            break
+        rin = alias.get(inp, inp)
+        if cur is not None and rin != cur:
+            chain = False
+        if k.startswith("E"):
+            cur = rin
+        else:
+            alias.pop(out, None)
+            cur = out
+    ok = kinds == ["Linv", "E", "LTinv"] and chain
+    obs.append(ob("KSOLVE", "v = LK^-T E LK^-1 v with E = diag(-I_m, I_m)", f, seq[0][3] if seq else br, ok,
+                  f"operations on the right-hand side: {kinds}" + ("" if ok else ": expected forward solve, sign flip of the first half, backward solve"),
+                  construct="solve through LK"))
+    # the right-hand side is W'Z rHat and the factor comes from form_k / factorize_k of this call
+    vdef = [s for s in f.node.body if _top_targets(s) == ["v"]]
+    lkdefs = [s for s in walk_no_nested(f.node) if isinstance(s, (ast.Assign, ast.AnnAssign)) and getattr(s, "value", None) is not None
+              and src(s.targets[0] if isinstance(s, ast.Assign) else s.target) == "LK" and isinstance(s.value, ast.Call)]
+    ex = Expander_for(ctx, f)
+    wtz = src(ex.expand_at(vdef[0], ast.Name("WTZ", ast.Load()))) if vdef else "?"
+
+    def _from_form_k(s):
+        if (dotted(s.value.func) or "").split(".")[-1] != "factorize_k" or not s.value.args:
+            return False
+        k = ex.expand_at(s, s.value.args[0])
+        if not (isinstance(k, ast.Call) and (dotted(k.func) or "").split(".")[-1] == "form_k"):
+            return False
+        a = bind_args(k, ctx.repo.func("subspacemin.form_k").node)
+        return [src(a[n]) if n in a else None for n in ("Z", "A", "WTZ", "mats")] == ["Z", "A", wtz, "mats"]
+
+    okf = bool(lkdefs) and all(_from_form_k(s) for s in lkdefs)
+    obs.append(ob("KSOLVE", "the factor is factorize_k(form_k(Z, A, WTZ, mats)) of this call", f, lkdefs[0] if lkdefs else f.node, okf,
+                  f"LK <- {[short(s.value, 60) for s in lkdefs]}", construct="LK = factorize_k(form_k(..))"))
+    return obs
+
+
+def Expander_for(ctx, f):
+    from ..flow import Expander
+    return Expander(ctx, f)
